@@ -155,3 +155,101 @@ func appendChain(v ssa.Value) []string {
 }
 
 var _ = token.ADD
+
+// convChain returns the types along a chain of numeric conversions, outermost first, and the
+// value at the bottom of the chain.
+func convChain(v ssa.Value) ([]string, ssa.Value) {
+	var ts []string
+	for {
+		switch x := v.(type) {
+		case *ssa.Convert:
+			ts = append(ts, normBasic(x.Type().Underlying().String()))
+			v = x.X
+		case *ssa.ChangeType:
+			v = x.X
+		default:
+			ts = append(ts, normBasic(v.Type().Underlying().String()))
+			return ts, v
+		}
+	}
+}
+
+// fieldStores lists the values stored into field `name` (of any struct) in f.
+func fieldStores(f *ssa.Function, name string) []*ssa.Store {
+	var out []*ssa.Store
+	allInstrs(f, func(_ *ssa.BasicBlock, in ssa.Instruction) {
+		if st, ok := in.(*ssa.Store); ok {
+			if _, fn, ok := fieldOf(st.Addr); ok && fn == name {
+				out = append(out, st)
+			}
+		}
+	})
+	return out
+}
+
+// widthChain checks that every store to field `field` in f is a conversion chain `want`
+// (outermost first) whose root satisfies rootOK.
+func (c *Ctx) widthChain(rule string, f *ssa.Function, field string, want []string, rootDesc string, rootOK func(ssa.Value) bool) {
+	if f == nil {
+		return
+	}
+	sts := fieldStores(f, field)
+	key := fmt.Sprintf("%s: %s = %s(%s)", fnName(f), field, strings.Join(want, "("), rootDesc)
+	if len(sts) != 1 {
+		c.bad(rule, key, f.Pos(), fmt.Sprintf("%s assigns %s at %d sites; the conversion is a single width/sign chain %v of %s, not a case analysis on the value", fnName(f), field, len(sts), want, rootDesc))
+		return
+	}
+	ts, root := convChain(sts[0].Val)
+	okv := strings.Join(ts, ",") == strings.Join(want, ",") && rootOK(root)
+	c.check(okv, rule, key, sts[0].Pos(), "conversion chain "+strings.Join(ts, "<-")+" from "+shape(root, 3),
+		fmt.Sprintf("%s converts %s through %v from %s; the inverse of the writer's truncation is %v of %s (sign and width must match the sibling encoder)", fnName(f), field, ts, shape(root, 3), want, rootDesc))
+}
+
+func isIndexLoad(idx int64) func(ssa.Value) bool {
+	return func(v ssa.Value) bool {
+		u, ok := v.(*ssa.UnOp)
+		if !ok || u.Op != token.MUL {
+			return false
+		}
+		ia, ok := u.X.(*ssa.IndexAddr)
+		if !ok {
+			return false
+		}
+		k, ok := constInt(ia.Index)
+		return ok && k == idx
+	}
+}
+
+func isFieldLoad(name string) func(ssa.Value) bool {
+	return func(v ssa.Value) bool {
+		if fl, ok := v.(*ssa.Field); ok {
+			_, n, _ := fieldOf(fl)
+			return n == name
+		}
+		if u, ok := v.(*ssa.UnOp); ok && u.Op == token.MUL {
+			_, n, ok := fieldOf(u.X)
+			return ok && n == name
+		}
+		return false
+	}
+}
+
+func isCallTo(q string) func(ssa.Value) bool {
+	return func(v ssa.Value) bool {
+		if ex, ok := v.(*ssa.Extract); ok {
+			v = ex.Tuple
+		}
+		cl := callOf(v)
+		return cl != nil && callQName(&cl.Call) == q
+	}
+}
+
+func normBasic(s string) string {
+	switch s {
+	case "byte":
+		return "uint8"
+	case "rune":
+		return "int32"
+	}
+	return s
+}
